@@ -83,3 +83,35 @@ if __name__ == "__main__":
     t = time.time()
     out, path, pairs, metas = build()
     print(len(out), sum(s["a"] for s in out), path, pairs, [(m["name"], m["distinct"], m["wall_s"]) for m in metas], time.time() - t)
+
+
+def leaves_file():
+    """The discriminating leaf set of C09/C10: shapes on which the leaf predicates of the pinned code are exact
+    (points, two-point lines, rectangles, convex polygons without holes), taken with their masks from the pair universe."""
+    shapes, spath, pairs, metas = build()
+    want = [
+        ("Point", ["pt", [0, 0]]), ("Point", ["pt", [1, 1]]), ("SimplePoint", ["pt", [2, 2]]), ("Point", ["pt", [3, 0]]), ("Point", ["pt", [1, 0]]),
+        ("LineString", ["line", [[0, 0], [3, 3]]]), ("LineString", ["line", [[0, 0], [2, 0]]]), ("LineString", ["line", [[1, 1], [2, 2]]]),
+        ("LineString", ["line", [[3, 0], [3, 3]]]), ("LineString", ["line", [[0, 2], [2, 2]]]),
+        ("Rect", ["rect", [0, 0], [3, 3]]), ("Rect", ["rect", [0, 0], [1, 1]]), ("Rect", ["rect", [1, 1], [2, 2]]), ("Rect", ["rect", [2, 0], [3, 3]]),
+        ("Polygon", ["poly", [[0, 0], [3, 0], [0, 3], [0, 0]], []]), ("Polygon", ["poly", [[1, 1], [2, 1], [2, 2], [1, 2], [1, 1]], []]),
+        ("Polygon", ["poly", [[0, 1], [1, 0], [2, 1], [1, 2], [0, 1]], []]), ("Polygon", ["poly", [[0, 0], [3, 0], [3, 3], [0, 3], [0, 0]], []]),
+        ("Polygon", ["poly", [[0, 3], [3, 0], [3, 3], [0, 3]], []]),
+    ]
+    bykey = {}
+    for sh in shapes:
+        bykey[key(sh["s"], D4[0])] = sh
+    out = []
+    for kind, s in want:
+        sh = bykey.get(key(s, D4[0]))
+        if sh is None:
+            raise vlib.Inconclusive("leaf %s not in the pair universe" % (s,))
+        pts = [s[1]] if s[0] == "pt" else ([s[1], s[2]] if s[0] == "rect" else (s[1] if s[0] == "line" else s[1]))
+        xs, ys = [p[0] for p in pts], [p[1] for p in pts]
+        out.append({"k": kind, "s": s, "m": sh["m"], "r": [min(xs), min(ys), max(xs), max(ys)]})
+    d = os.path.join(vlib.BUILD, "universe")
+    text = "".join(json.dumps(s, separators=(",", ":")) + "\n" for s in out)
+    path = os.path.join(d, "leaves-%s.ndjson" % hashlib.sha256(text.encode()).hexdigest()[:16])
+    if not os.path.exists(path):
+        open(path, "w").write(text)
+    return path, out
